@@ -118,6 +118,9 @@ func TestVerifC04Storage(t *testing.T) {
 			rec.Add("leaves", int64(len(s.model)))
 			rec.Add("operations", int64(s.w.opN))
 			add(s.w.stalls > 0, "operation-stalled-until-deadline")
+			add(h.st.HugeRounds > 0, "round-of-more-than-five-tiles")
+			add(s.w.barriersMet > 0, "tile-uploads-overlapping")
+			rec.Add("tile-barrier-timeouts", int64(s.w.barrierTimeouts))
 			rec.Add("stalled-operations", int64(s.w.stalls))
 			rec.CaseSample(fmt.Sprintf("sizes=%v %s", h.st.Sizes, strings.Join(h.st.Desc, "; ")), h.st.Desc, nt, cls...)
 		})
